@@ -2,6 +2,7 @@
 This module contains the implementation for the SNMPv3 message-processing model
 """
 
+import time
 from typing import Any, Awaitable, Callable, Dict, Optional, Union
 
 from x690.types import Integer, OctetString
@@ -60,6 +61,9 @@ class V3MPM(MessageProcessingModel[V3EncodingResult, TV3SecModel]):
     message-processing-model.
     """
 
+    #: The local (monotonic) time at which the remote engine was discovered
+    disco_timestamp: Optional[float] = None
+
     def decode(
         self,
         whole_msg: bytes,  # as received from the network
@@ -94,6 +98,7 @@ class V3MPM(MessageProcessingModel[V3EncodingResult, TV3SecModel]):
             self.disco = await self.security_model.send_discovery_message(
                 self.transport_handler
             )
+            self.disco_timestamp = time.monotonic()
         security_engine_id = self.disco.authoritative_engine_id
 
         if engine_id == b"":
@@ -115,10 +120,16 @@ class V3MPM(MessageProcessingModel[V3EncodingResult, TV3SecModel]):
         )
 
         if self.disco is not None:
+            # The engine-time of the remote engine keeps running. It must be
+            # within 150s of the remote clock (rfc3414#section-3.2) so we
+            # need to advance the value we got during discovery.
+            elapsed = 0
+            if self.disco_timestamp is not None:
+                elapsed = int(time.monotonic() - self.disco_timestamp)
             self.security_model.set_engine_timing(
                 self.disco.authoritative_engine_id,
                 self.disco.authoritative_engine_boots,
-                self.disco.authoritative_engine_time,
+                self.disco.authoritative_engine_time + elapsed,
             )
 
         snmp_version = 3
